@@ -291,14 +291,27 @@ class Run(object):
             self.sch.point()
 
     # -- programs ---------------------------------------------------------------------------------
+    CLOSERS = ("close", "exit", "open")
+
     def op(self, name, opname, fn):
         """one public operation of the frontend in thread `name`"""
         self.emit("Begin", name, op=opname)
+        # bookkeeping for api_outcomes(): was the frontend closed (by a finished close(), not re-opened) when this
+        # call began, and did a close()/open() of ANOTHER thread run while this call was in progress
+        st = self.__dict__.setdefault("_cl", dict(closed=False, epoch=0, active={}))
+        closed_at_begin = st["closed"]
+        epoch0 = st["epoch"]
+        others_active = any(t != name for t in st["active"])
+        if opname in self.CLOSERS:
+            st["active"][name] = opname
+            st["epoch"] += 1
+        out = dict(api=opname, thread=name, outcome="ret", exc_type="", errno=0, msg="")
         try:
             return fn()
         except clfsched.Abort:
             raise
         except AttributeError as e:
+            out.update(outcome="exc", exc_type="AttributeError", msg=str(e)[:80])
             # self.device was None at an unguarded call site: `None.turn_on_led_and_buzzer`
             tb = e.__traceback__
             hit = None
@@ -316,13 +329,23 @@ class Run(object):
                 self.indrv.remove(name)
                 self.emit("Exit", name, m=site["method"])
         except IOError as e:
+            out.update(outcome="exc", exc_type="IOError", errno=e.errno or 0, msg=str(e)[:80])
             if e.errno != errno.ENODEV:
                 self.note_exc(name, opname, e)
         except Exception as e:
+            out.update(outcome="exc", exc_type=type(e).__name__, msg=str(e)[:80],
+                       documented=isinstance(e, (nfc.clf.CommunicationError, nfc.clf.UnsupportedTargetError)))
             self.note_exc(name, opname, e)
         finally:
             if self.lock.owner is self.sch.cur:
                 raise HarnessError("operation %s left the lock held" % opname)
+            if opname in self.CLOSERS:
+                st["active"].pop(name, None)
+                st["epoch"] += 1
+                st["closed"] = self.clf.device is None if opname == "open" else True
+            out.update(closed_at_begin=closed_at_begin,
+                       concurrent_close=bool(others_active or st["epoch"] != epoch0 + (2 if opname in self.CLOSERS else 0)))
+            self.outcomes.append(out)
             self.emit("End", name)
 
     def note_exc(self, name, opname, e):
@@ -330,6 +353,7 @@ class Run(object):
 
     def execute(self):
         self.excs = []
+        self.outcomes = []
         saved = (nfc.clf.time, nfc.dep.time, nfc.llcp.llc.time, nfc.clf.device.connect)
         ft = clfdev.FakeTimeModule(self.clock)
         nfc.clf.time = nfc.dep.time = nfc.llcp.llc.time = ft
@@ -478,6 +502,32 @@ def run_schedule(ex, progs, plan_spec):
                 init=r.init, ev=ev), r
 
 
+def api_outcomes(tier="quick", seed=1):
+    """What every public API call of the frontend returned / raised while another thread closes the frontend
+    (close() with a clean and with a failing driver close(), __exit__): all single-preemption cuts of
+    (API program, closer) in both orders, under the deterministic scheduler.  No TLC involved; used by the
+    frontend stage of C13 (bind/c13_frontend.py).  -> list of dicts
+      {api, schedule, thread, outcome: "ret"|"exc", exc_type, errno, msg, closed_at_begin, concurrent_close}"""
+    ex = c15_extract.extract(SRC)
+    closers = ["close", "close_fail", "with"]
+    apis = [p for p in sorted(PROGRAMS) if p not in closers]
+    npts = {p: points_of(ex, p)[0] for p in apis + closers}
+    step = 2 if tier == "quick" else 1
+    jobs = []
+    for a in apis:
+        for c in closers:
+            for i in range(0, npts[a] + 1, step):
+                jobs.append(([a, c], ("rl", [["A", i], ["B", None], ["A", None]])))
+            for i in range(0, npts[c] + 1):
+                jobs.append(([c, a], ("rl", [["A", i], ["B", None], ["A", None]])))
+    out = []
+    for progs, plan in jobs:
+        tr, r = run_schedule(ex, progs, json.loads(json.dumps(plan)))
+        for o in r.outcomes:
+            out.append(dict(o, schedule=tr["id"], progs=progs, plan=plan))
+    return out
+
+
 def points_of(ex, prog):
     """number of scheduling points of a program running alone"""
     tr, r = run_schedule(ex, [prog], ("rl", [["A", None]]))
@@ -610,7 +660,11 @@ def _run(ck, d, tier, seed, quick):
     ck.cover(sites_exercised=len(dyn_sites & all_sites), sites_not_exercised=sorted(all_sites - dyn_sites),
              program_exceptions=sorted(excs.values())[:12])
 
-    self_t = selftest_traces(next(t for t in traces if any(e["a"] == "Enter" and e["held"] for e in t["ev"])))
+    self_t = selftest_traces(next((t for t in traces if any(e["a"] == "Enter" and e["held"] for e in t["ev"])), traces[0]))
+    for t in self_t:
+        if not t["ev"] or all(t["ev"] != x["ev"] for x in traces):
+            continue
+        t["ev"][-1]["a"] = "Bogus"          # nothing to corrupt the intended way: make the trace unacceptable anyhow
     waived, reported = set(), {}
     pending = traces + self_t
     accepted, nev, tstates = 0, sum(len(t["ev"]) for t in traces), 0
